@@ -48,8 +48,25 @@ impl Case for CosetCase {
     }
 }
 
+/// the crate's FreeWord for a word. A quarter of the words (chosen by a hash of the letters) are values
+/// with a HISTORY: the first half of the word is built, used the way relators are used (expanded,
+/// inverted, cloned) and then extended in place with `*=` to the full word.
 pub fn fw(w: &[i64]) -> FreeWord {
-    FreeWord::new(w.iter().map(|&x| x as isize))
+    if w.len() >= 2 && h64(&w) % 4 == 0 {
+        let k = w.len() / 2;
+        let mut a = FreeWord::new(w[..k].iter().map(|&x| x as isize));
+        let _ = guarded(|| {
+            let _ = rust_dsymbols::fpgroups::free_words::relator_permutations(&a);
+            let _ = rust_dsymbols::fpgroups::free_words::relator_representative(&a);
+            let _ = a.inverse();
+            let _ = a.len();
+            let _ = a.clone();
+        });
+        a *= &FreeWord::new(w[k..].iter().map(|&x| x as isize));
+        a
+    } else {
+        FreeWord::new(w.iter().map(|&x| x as isize))
+    }
 }
 
 /// read a crate coset table into plain data, validating completeness and the permutation property
